@@ -15,6 +15,28 @@ def run_vft(pid, tier, res=None, finish=True):
     cov = pl.base_coverage()
     n_checked = n_model = 0
     distinct = set()
+    SEVEN = {"C", "cdecl", "stdcall", "fastcall", "thiscall", "vectorcall", "system"}
+
+    def strip_cc(case):
+        """the input with every convention name removed (the key under which a case and its siblings that differ only in
+        convention names meet), and the set of names it uses"""
+        inp = json.loads(json.dumps(case["input"]))
+        names = set()
+        for m in inp["mods"]:
+            for d in m["defs"]:
+                for f in d.get("vft", {}).get("funcs", []):
+                    names.add(f["cc"]); f["cc"] = ""
+            for im in m["impls"]:
+                for f in im["funcs"]:
+                    names.add(f["cc"]); f["cc"] = ""
+        return json.dumps(inp, sort_keys=True), names - {""}
+
+    plain_ok = set()
+    if pid == "C16":
+        for case, obs in pl.pairs():
+            key, names = strip_cc(case)
+            if not names and obs["accepted"]:
+                plain_ok.add(key)
     for case, obs in pl.pairs():
         cid, ptr, oracle = case["id"], case["input"]["ptr"], case["oracle"]
         kf = [k for k in oracle.get("kf", []) if k.startswith(pid + ":")]
@@ -102,6 +124,11 @@ def run_vft(pid, tier, res=None, finish=True):
                     res.violation("an unknown calling convention name is accepted", payload(case, obs), kf_class)
                 continue
             if not obs["accepted"]:
+                # the same description without convention names builds, all names used are among the seven supported ones
+                key, names = strip_cc(case)
+                if names and names <= SEVEN and key in plain_ok:
+                    res.violation(f"a description is rejected only because it names the supported convention(s) {sorted(names)}: "
+                                  f"{str(obs.get('msg'))[:120]}", payload(case, obs), kf_class)
                 continue
             tab = proj_item(obs, ["m", "VVftable"])
             v = proj_item(obs, ["m", "V"])
